@@ -8,7 +8,9 @@ import NLE.Gen.Consts
     blocking call of the loop (≤ `L`): next check call ≤ previous check call + P + L;
   * every store operation is applied and answered within `L` of its call (hypothesis: responsive store);
   * a check that does not read a record (key missing, or any error) starts an acquisition round: after a jitter of at
-    most `J` = 100 ms (regenerated) the round calls `Create`;
+    most `J` = 100 ms (regenerated) the round calls `Create` — as soon as no other acquisition attempt of the same instance
+    is running (attempts of one instance are serialized; one attempt is at most `B` long: a Create, and with takeover
+    enabled a Get and an Update);
   * the store: a `Get` applied on a vacant key does not return a record; a `Create` applied on a vacant key succeeds.
   Time is urgent: it cannot advance past a pending deadline.  No watch notification is needed for any of this.
 -/
@@ -19,9 +21,11 @@ structure Par where
   Jmin : Nat   -- minimum jitter of an acquisition round
   J : Nat      -- maximum jitter
   L : Nat      -- bound on call → application → answer of every store operation
+  B : Nat      -- longest time another acquisition attempt of the same instance can keep a round waiting
   deriving Repr, DecidableEq, Inhabited
 
-def Par.ofLat (L : Nat) : Par := { P := Gen.checkInterval, Jmin := Gen.jitterMin, J := Gen.jitterMax, L := L }
+def Par.ofLat (L : Nat) (takeover : Bool) : Par :=
+  { P := Gen.checkInterval, Jmin := Gen.jitterMin, J := Gen.jitterMax, L := L, B := if takeover then 3 * L else L }
 
 inductive Chk
   | idle
@@ -34,7 +38,7 @@ structure St where
   vacant : Option Nat := none        -- the key has been vacant since (from the candidate's healthy-since at the earliest)
   lastCheck : Nat := 0               -- call time of the last completed check (or the start of the loop / of following)
   chk : Chk := .idle
-  owed : List Nat := []              -- answer times of checks that read no record: a Create is owed by + J
+  owed : List Nat := []              -- answer times of checks that read no record: a Create is owed by + J + B
   crts : List Nat := []              -- call times of this candidate's Creates not yet applied
   deriving Repr, DecidableEq, Inhabited
 
@@ -58,7 +62,7 @@ def chkDue (p : Par) (s : St) : Nat :=
 
 /-- May the clock reach `t`? -/
 def canAdvance (p : Par) (s : St) (t : Nat) : Bool :=
-  decide (s.now ≤ t) && decide (t ≤ chkDue p s) && s.owed.all (fun r => decide (t ≤ r + p.J)) && s.crts.all (fun c => decide (t ≤ c + p.L))
+  decide (s.now ≤ t) && decide (t ≤ chkDue p s) && s.owed.all (fun r => decide (t ≤ r + p.J + p.B)) && s.crts.all (fun c => decide (t ≤ c + p.L))
 
 def step (p : Par) (s : St) : Act → Option St
   | .advance t => if canAdvance p s t then some { s with now := t } else none
@@ -93,7 +97,8 @@ def run (p : Par) (s : St) : List Act → Option St
 /-- A candidate that starts following (or becomes healthy) at `t0`; a vacancy that exists then counts from `t0`. -/
 def init (t0 : Nat) (vacant : Bool) : St := { now := t0, lastCheck := t0, vacant := if vacant then some t0 else none }
 
-/-- The bound of the property: one periodic-check interval + maximum jitter + three operation latencies. -/
-def bound (p : Par) : Nat := p.P + p.J + 3 * p.L
+/-- The bound of the property: one periodic-check interval + maximum jitter + operation latencies (check answered,
+    a running attempt of the same instance finished, Create applied). -/
+def bound (p : Par) : Nat := p.P + p.J + 3 * p.L + p.B
 
 end NLE.Vac
